@@ -39,6 +39,20 @@ class Inconclusive(Exception):
     pass
 
 
+CASE_TIMEOUT = int(os.environ.get("VERIF_CASE_TIMEOUT", "300"))
+
+
+def _on_alarm(signum, frame):
+    raise Inconclusive("a single case ran longer than %ds (watchdog; not judged as a violation)" % CASE_TIMEOUT)
+
+
+def arm_watchdog():
+    """Re-armed before every case: a hang becomes exit 2 instead of a stuck check."""
+    import signal
+    signal.signal(signal.SIGALRM, _on_alarm)
+    signal.alarm(CASE_TIMEOUT)
+
+
 def jdump(obj: Any) -> str:
     return json.dumps(obj, sort_keys=True, default=_default, separators=(",", ":"))
 
@@ -199,6 +213,7 @@ class Harness:
         def worker(k: int) -> Stats:
             st = Stats()
             for it in items[k::shards]:
+                arm_watchdog()
                 try:
                     prop(it, st)
                 except Violation as v:
@@ -384,6 +399,7 @@ def _run_hypothesis(strategy_fn, prop, n_cases, sd, classify, h: Harness, shrink
               verbosity=hypothesis.Verbosity.quiet)
     @given(strategy)
     def t(case):
+        arm_watchdog()
         try:
             prop(case, st)
         except Violation as v:
